@@ -63,6 +63,15 @@ def kinds(b):
     K.append(Kind("Array.assert_eq(int,fxp)", 2,
                   lambda ns, ops, prm: ns.ar.Array([ops[0]]).assert_eq(ns.ar.Array([ns.fx.LinCombFxp(ops[1], False)])),
                   lambda v, prm: v[0] * (1 << env.bind().fx.resolution) == v[1]))
+    # nested arrays with the same number of rows but rows of other lengths are not equal, whatever the entries are
+    K.append(Kind("Array.assert_eq(ragged rows)", 2,
+                  lambda ns, ops, prm: ns.ar.Array([ns.ar.Array([ops[0], ops[1]]), ns.ar.Array([ns.rt.LinComb.ONE_SAFE * 1])]).assert_eq(
+                      ns.ar.Array([ns.ar.Array([ops[0]]), ns.ar.Array([ops[1], 1])])),
+                  lambda v, prm: False))
+    K.append(Kind("Array.assert_eq(missing last entry)", 2,
+                  lambda ns, ops, prm: ns.ar.Array([ns.ar.Array([ops[0], ops[1]]), ns.ar.Array([ops[0], ops[1]])]).assert_eq(
+                      ns.ar.Array([ns.ar.Array([ops[0], ops[1]]), ns.ar.Array([ops[0]])])),
+                  lambda v, prm: False))
     K.append(Kind("Array.assert_eq", 2,
                   lambda ns, ops, prm: ns.ar.Array([ops[0], ops[1]]).assert_eq(ns.ar.Array([ns.rt.LinComb.ONE_SAFE * 1, ops[0]])),
                   lambda v, prm: v[0] == 1 and v[1] == v[0]))
